@@ -236,6 +236,8 @@ pub fn run(ctx: &Ctx) {
         }
         k
     };
+    boundary_probes(ctx, &mut vm);
+    near_miss_probes(ctx);
     if ctx.tier == Tier::Thorough {
         // coverage-guided search for an accepted program whose emitted lines a downstream parser refuses
         crate::fuzzrun::campaigns(ctx, &["compose"]);
@@ -243,6 +245,115 @@ pub fn run(ctx: &Ctx) {
     let g = crate::grammar::all_terminals();
     let unknown: Vec<&String> = g.difference(&known).collect();
     ctx.extra("grammar_terminals", json!({"in_grammar": g.len(), "unknown_to_enumerator": unknown}));
+}
+
+/// Programs on both sides of every acceptance boundary of the assembler (constant ranges, address
+/// sums, array sizes): whether each is accepted is C14's business; here, IF it is accepted then the
+/// loaders must take what was emitted -- this is where an assembler range that drifts away from
+/// the downstream range shows.
+fn boundary_probes(ctx: &Ctx, vm: &mut VM) {
+    let mb = 1u32 << 20;
+    let mut progs: Vec<String> = Vec::new();
+    for (a, n) in [(mb - 16, 14u32), (mb - 16, 15), (mb - 16, 16), (mb - 16, 17), (0, mb - 2), (0, mb - 1), (0, mb), (mb - 1, 0), (mb - 1, 1), (mb, 0), (524288, 524287), (524288, 524288)] {
+        progs.push(format!("start: print mem {}:{}\n", a, n));
+        progs.push(format!("start: PRINT MEM 0x{:X} : 0x{:X}\n", a, n));
+    }
+    for (a, b) in [(0u32, mb - 1), (0, mb), (mb - 1, mb - 1), (mb - 1, mb), (mb, mb), (mb - 2, mb - 1), (5, 4), (mb - 1, 0)] {
+        progs.push(format!("start: print mem {} -> {}\n", a, b));
+    }
+    for n in [0u32, 1, 65535, 65536, mb - 1, mb, mb + 1] {
+        progs.push(format!("start: print mem :{}\n", n));
+        progs.push(format!("start: mov ax, 0xFFFF\nmov ds, ax\nprint mem :{}\n", n));
+    }
+    for v in ["255", "256", "-128", "-129", "0xFF", "0x100", "0b11111111", "0b100000000"] {
+        for t in ["mov al, {}", "add bl, {}", "cmp byte [bx], {}", "mov byte v, {}", "and cl, {}", "test byte [si], {}", "db {}", "db [{} , 2]"] {
+            let line = t.replace("{}", v);
+            if line.starts_with("db") {
+                progs.push(format!("{}\nstart: hlt\n", line));
+            } else {
+                progs.push(format!("v: db 0\nstart: {}\n", line));
+            }
+        }
+    }
+    for v in ["65535", "65536", "-32768", "-32769", "0xFFFF", "0x10000"] {
+        for t in ["mov ax, {}", "sub dx, {}", "cmp word [bx], {}", "mov word w, {}", "or cx, {}", "dw {}", "dw [{} , 2]", "set {}", "db [{}]", "dw [{}]", "db [1 , {}]", "mov ax, word [{}]", "mov ax, word [bx , {}]", "mov al, byte [bp , si , {}]"] {
+            let line = t.replace("{}", v);
+            if line.starts_with('d') || line.starts_with("set") {
+                progs.push(format!("{}\nstart: hlt\n", line));
+            } else {
+                progs.push(format!("w: dw 0\nstart: {}\n", line));
+            }
+        }
+    }
+    for c in ["0", "1", "8", "16", "255", "256"] {
+        for t in ["shl ax, {}", "rcr byte [bx], {}", "ror word w, {}", "sar bl, {}"] {
+            progs.push(format!("w: dw 0\nstart: {}\n", t.replace("{}", c)));
+        }
+    }
+    for n in ["0", "3", "4", "0x10", "0x21", "0x20", "255", "256"] {
+        progs.push(format!("start: int {}\n", n));
+    }
+    for src in progs {
+        ctx.add_evals(1);
+        match downstream(vm, &src) {
+            Down::Ok { .. } => {
+                ctx.class("c10/boundary-probe/accepted", 1);
+                ctx.add_nontrivial(1);
+            }
+            Down::Rejected(_) => ctx.class("c10/boundary-probe/refused-by-assembler", 1),
+            Down::Bad { stage, line, err } => ctx.fail(Failure {
+                key: format!("c10|{}|boundary-probe", stage),
+                what: format!("accepted program {:?}: {} refuses emitted line '{}': {}", src, stage, line, err),
+                replay: json!({"kind":"c10","source":src}),
+            }),
+        }
+    }
+}
+
+/// C14's single-mutation near misses through the real driver: each should be refused, which is C14's
+/// business; here, a near miss that IS accepted must not end in an internal-error path (an accepted
+/// program the loaders cannot run).  Covers the driver-level acceptance decisions (label / procedure
+/// resolution), which the in-process replica cannot see.
+fn near_miss_probes(ctx: &Ctx) {
+    use crate::cli::*;
+    use crate::clicheck::*;
+    use proptest::prelude::*;
+    if !cli_available() {
+        return;
+    }
+    let n = ctx.tier.pick(600usize, 12_000usize);
+    run_cases(
+        ctx,
+        "c10-near-miss",
+        n,
+        || (crate::c14::raw_s(), any::<u16>()),
+        |(raw, sel)| {
+            let p = crate::c14::build_parent(raw);
+            let ms = crate::c14::mutants(&p);
+            let m = &ms[crate::pt::idx(*sel, ms.len())];
+            let out = run_cli(m.text.as_bytes(), Stdin::Closed, false, 4 << 20, 20_000);
+            if matches!(out.status, Status::Timeout | Status::SpawnError(_)) {
+                return CaseOutcome::Inconclusive(format!("{:?}", out.status));
+            }
+            let so = out.out_str();
+            if so.contains("Internal Error") {
+                if so.contains("ret is encountered without corresponding call") {
+                    return CaseOutcome::Known("c10|internal-error|ret-without-call".into());
+                }
+                return CaseOutcome::Fail {
+                    key: format!("c10|near-miss|internal-error|{}", m.class),
+                    what: format!("{} ({}): the program was accepted and then ended in an internal-error path: {}", m.class, m.what, so.lines().filter(|l| l.contains("Error")).take(2).collect::<Vec<_>>().join(" / ")),
+                    replay: json!({"kind":"cli","source":m.text,"stdin":"","interpreted":false,"forbid":["Internal Error"]}),
+                };
+            }
+            CaseOutcome::Pass { nontrivial: true, classes: vec!["c10/near-miss-probe".into()], digest: fnv_str(&m.text) }
+        },
+        |(raw, sel)| {
+            let p = crate::c14::build_parent(raw);
+            let ms = crate::c14::mutants(&p);
+            json!({"near_miss": ms[crate::pt::idx(*sel, ms.len())].what})
+        },
+    );
 }
 
 pub fn replay(v: &serde_json::Value) -> Result<String, String> {
